@@ -1528,13 +1528,15 @@ impl DecodedPixelData<'_> {
                             }
                         };
                         let signed = self.pixel_representation == PixelRepresentation::Signed;
+                        // only the bits up to the high bit hold the sample value
+                        let bits_stored = self.bits_stored.clamp(1, 8);
 
                         let lut: Lut<T> = match (voi_lut, self.window()?) {
                             (VoiLutOption::Default | VoiLutOption::Identity, _) => {
-                                Lut::new_rescale(8, signed, rescale)
+                                Lut::new_rescale(bits_stored, signed, rescale)
                             }
                             (VoiLutOption::First, Some(window)) => Lut::new_rescale_and_window(
-                                8,
+                                bits_stored,
                                 signed,
                                 rescale,
                                 WindowLevelTransform::new(
@@ -1557,10 +1559,10 @@ impl DecodedPixelData<'_> {
                             ),
                             (VoiLutOption::First, None) => {
                                 tracing::warn!("Could not find window level for object");
-                                Lut::new_rescale(8, signed, rescale)
+                                Lut::new_rescale(bits_stored, signed, rescale)
                             }
                             (VoiLutOption::Custom(window), _) => Lut::new_rescale_and_window(
-                                8,
+                                bits_stored,
                                 signed,
                                 rescale,
                                 WindowLevelTransform::new(
@@ -1579,14 +1581,14 @@ impl DecodedPixelData<'_> {
                             ),
                             (VoiLutOption::CustomWithFunction(window, function), _) => {
                                 Lut::new_rescale_and_window(
-                                    8,
+                                    bits_stored,
                                     signed,
                                     rescale,
                                     WindowLevelTransform::new(*function, *window),
                                 )
                             }
                             (VoiLutOption::Normalize, _) => Lut::new_rescale_and_normalize(
-                                8,
+                                bits_stored,
                                 signed,
                                 rescale,
                                 data.iter().copied(),
